@@ -428,7 +428,7 @@ func RunConc(sc ConcScenario, base string, emit func(Ev)) error {
 	var q, rec *actor
 	qParked := false // parked at a "visit" gate
 	step := func(a string, extra Ev) {
-		e := Ev{"ev": "Step", "scen": sc.Scen, "a": a, "run": 0, "kind": "", "answer": []int{}}
+		e := Ev{"ev": "Step", "scen": sc.Scen, "a": a, "run": 0, "kind": "", "answer": []int{}, "ok": true}
 		for k, v := range extra {
 			e[k] = v
 		}
@@ -560,6 +560,20 @@ func RunConc(sc ConcScenario, base string, emit func(Ev)) error {
 			}
 			rec = nil
 			step("cunlink", nil)
+		case "update":
+			// a manual status update of the run that is being closed (the run's socket already reports a final status, so the
+			// API lets it through); the whole operation, not gated
+			upd := status(2)
+			upd.Params = "v9"
+			err := server.Update(dagFile, status(2).RequestID, upd)
+			step("update", Ev{"ok": err == nil})
+		case "findafter":
+			sf, err := server.FindByRequestID(dagFile, status(2).RequestID)
+			ans := []int{}
+			if err == nil && sf != nil {
+				ans = []int{verOf(sf.Status)}
+			}
+			step("findafter", Ev{"answer": ans})
 		case "open2":
 			if err := rec3.Open(dagFile, t0.Add(2*time.Second), status(3).RequestID); err != nil {
 				return infra(err)
